@@ -5,7 +5,7 @@ CONSTANT NY = 2
 CONSTANT Vals = {0, 1}
 CONSTANT VarSet = {1, 2, 6}
 CONSTANT BG = 1
-CONSTANT TNs = {8}
+CONSTANT TNs = {4}
 CONSTANT TD = 8
 CONSTANT TailSet = {"left", "right", "both"}
 CONSTANT Paired = TRUE
